@@ -8,10 +8,12 @@ import fcntl, hashlib, json, os, random, re, shutil, subprocess, sys, time
 VERIF = os.path.dirname(os.path.dirname(os.path.abspath(__file__)))
 REPO = os.environ.get('VERIF_REPO', '/repo')
 SPECS = os.path.join(VERIF, 'specs')
-HARNESS = os.path.join(VERIF, 'harness')
-WORK = os.path.join(VERIF, 'work')
-EVIDENCE = os.path.join(VERIF, 'evidence')
-REPLAYS = os.path.join(VERIF, 'replays')
+# the overrides exist only for lib/mutant_eval.py (self-test against seeded changes in a scratch copy); registered checks never set them
+HARNESS = os.environ.get('VERIF_HARNESS', os.path.join(VERIF, 'harness'))
+_OUT = os.environ.get('VERIF_OUT', VERIF)
+WORK = os.path.join(_OUT, 'work')
+EVIDENCE = os.path.join(_OUT, 'evidence')
+REPLAYS = os.path.join(_OUT, 'replays')
 BIN = os.path.join(HARNESS, 'target', 'debug', 'iggy-verif')
 NCPU = os.cpu_count() or 8
 
